@@ -129,3 +129,11 @@ package lib
 //@ func (*Transaction).GetHash
 //@   pure
 //@   ensures[whole] result1 == nil ==> bytes(result0) == hashOf(pbBytes(x))
+
+// ---- C19: untrusted bytes never crash or hang the pre-decoding scan -------------------------------------
+// the scan stays inside the buffer, every iteration consumes at least one byte (so it terminates),
+// and it never panics, whatever the bytes are
+//@ func preflightProtoBytes
+//@   nopanic
+//@   loop 1 invariant[inbounds] 0 <= offset && offset <= len(b)
+//@   loop 1 decreases len(b) - offset
